@@ -3,6 +3,9 @@ from core import Result
 from facts import Facts, fwalk, walk, walk_macro, callee, see_through
 from prim_escape import Escape, clean
 from build import AnalysisBroken
+from facts import path_of
+from prims import mname, is_call
+from walk import Client, Engine
 
 LEVEL = 'other'
 EXPLANATION = ('Whole-program exception-escape analysis over the type-checked AST of every built unit (CHA call graph, '
@@ -240,6 +243,7 @@ def run(src, tier, seed):
                     res.ok(r, '%s in %s: %s' % (callee(n), nm, EXIT_ALLOW[nm]))
                 else:
                     res.bad(r, 'exit-caller:%s' % nm, fx.loc(f, n['ln']), '%s() called from %s, which is not an allowlisted termination point' % (callee(n), nm))
+    frontend_rules(fx, res)
     res.samples = [{'entry': 'main', 'escape_set': sorted(E.esc[main['id']])}, {'entry': 'Interpret::interp', 'escape_set': sorted(E.esc[interp['id']])}]
     res.extra['units'] = fx.stats['units']
     res.extra['functions'] = len(fx.F)
@@ -264,3 +268,299 @@ def describe(a):
     if a.get('k') == 'ref':
         return a['n']
     return a.get('k', '?')
+
+
+# ---------------------------------------------------------------------------------------------------------------------
+# Front-end crash clauses added after an independent seeding agent reported four crashes / silent failures on the unchanged tree (DESIGN 9.4)
+CFG = 'opensmt::SMTConfig::'
+GROW = {'push', 'push_back', 'emplace_back', 'emplace', 'insert'}
+SHRINK = {'pop', 'pop_back', 'clear', 'shrink', 'shrink_', 'erase', 'resize'}
+
+
+class NonEmpty(Client):
+    """state: frozenset of facts ('min', container, k) = the local container has at least k elements (k capped at 3), and ('int', var, v) = the int local
+    holds the literal value v.  Enough to see `if (g.size() < 2) return; for (i = 0; i < g.size() - 1; i++) {...push...}` as running at least once."""
+    CAP = 3
+
+    def __init__(self, locs):
+        self.locs = locs
+        self.accesses = []          # (line, name, how, known-nonempty?)
+
+    @staticmethod
+    def minsize(s, v):
+        return max([f[2] for f in s if f[0] == 'min' and f[1] == v] or [0])
+
+    def setmin(self, s, v, k):
+        k = min(k, self.CAP)
+        return frozenset(f for f in s if not (f[0] == 'min' and f[1] == v)) | ({('min', v, k)} if k > 0 else frozenset())
+
+    def intval(self, s, e):
+        e = see_through(e)
+        if isinstance(e, dict) and e.get('k') == 'lit' and isinstance(e.get('v'), int) and not isinstance(e.get('v'), bool):
+            return e['v']
+        if isinstance(e, dict) and e.get('k') == 'ref':
+            for f in s:
+                if f[0] == 'int' and f[1] == e['n']:
+                    return f[2]
+        return None
+
+    def size_lb(self, s, e):
+        """lower bound of an integer expression built from v.size(), literals and +/-; None if unknown"""
+        e = see_through(e)
+        if not isinstance(e, dict):
+            return None
+        if e.get('k') == 'call' and mname(e) in ('size', 'size_') and path_of(e.get('recv')) in self.locs:
+            return self.minsize(s, path_of(e['recv']))
+        if e.get('k') == 'bin' and e.get('op') in ('-', '+'):
+            l = self.size_lb(s, e['l'])
+            r_ = self.intval(s, e['r'])
+            if l is not None and r_ is not None:
+                return l - r_ if e['op'] == '-' else l + r_
+        return None
+
+    def _size_fact(self, a):
+        a = see_through(a)
+        if not isinstance(a, dict):
+            return None
+        if a.get('k') == 'call' and mname(a) == 'empty' and path_of(a.get('recv')) in self.locs:
+            return (path_of(a['recv']), 'empty', 0)
+        if a.get('k') in ('bin', 'call') and a.get('op') in ('==', '!=', '<', '<=', '>', '>='):
+            l, r_ = (a['l'], a['r']) if a.get('k') == 'bin' else ((a.get('recv'), (a.get('a') or [None])[0]) if a.get('recv') is not None else tuple((a.get('a') or [None, None])[:2]))
+            l, r_ = see_through(l), see_through(r_)
+
+            def sz(x):
+                return path_of(x.get('recv')) if isinstance(x, dict) and x.get('k') == 'call' and mname(x) in ('size', 'size_') and path_of(x.get('recv')) in self.locs else None
+
+            def lit(x):
+                return x.get('v') if isinstance(x, dict) and x.get('k') == 'lit' and isinstance(x.get('v'), int) else None
+            flip = {'<': '>', '<=': '>=', '>': '<', '>=': '<=', '==': '==', '!=': '!='}
+            if sz(l) and lit(r_) is not None:
+                return (sz(l), a['op'], lit(r_))
+            if sz(r_) and lit(l) is not None:
+                return (sz(r_), flip[a['op']], lit(l))
+        return None
+
+    def on_cond(self, atom, s, branch):
+        f = self._size_fact(atom)
+        if f:
+            v, rel, k = f
+            cur = self.minsize(s, v)
+            if rel == 'empty':
+                if branch and cur >= 1:
+                    return None
+                return s if branch else self.setmin(s, v, max(cur, 1))
+            truth = {'>': lambda n: n > k, '>=': lambda n: n >= k, '<': lambda n: n < k, '<=': lambda n: n <= k, '==': lambda n: n == k, '!=': lambda n: n != k}[rel]
+            # smallest size consistent with (size REL k) == branch, searched up to the cap; sizes below the current bound are excluded
+            feas = [n for n in range(cur, self.CAP + 2) if truth(n) == branch]
+            if not feas and not any(truth(n) == branch for n in range(self.CAP + 2, self.CAP + 8)):
+                return None
+            return self.setmin(s, v, feas[0]) if feas else s
+        # i < v.size() - c  with a known i
+        a = see_through(atom)
+        if isinstance(a, dict) and a.get('k') == 'bin' and a.get('op') in ('<', '<='):
+            i = self.intval(s, a['l'])
+            lb = self.size_lb(s, a['r'])
+            if i is not None and lb is not None:
+                if (i < lb if a['op'] == '<' else i <= lb) and not branch:
+                    return None        # the bound is at least lb: the condition cannot be false
+        return s
+
+    def on_decl(self, n, s):
+        s = frozenset(f for f in s if not (f[0] == 'int' and f[1] == n.get('n')))
+        if n.get('n') in self.locs:
+            i = see_through(n.get('init')) if n.get('init') is not None else None
+            k = 0
+            if isinstance(i, dict) and i.get('k') in ('init', 'new') and 'initializer_list' in str(i):
+                k = 1
+            return (self.setmin(s, n['n'], k),)
+        v = self.intval(s, n.get('init')) if n.get('init') is not None else None
+        if v is not None and 'int' in (n.get('ct') or n.get('t') or '') or (v is not None and 'size_t' in (n.get('t') or '')):
+            return (s | {('int', n['n'], v)},)
+        return (s,)
+
+    def on_assign(self, n, s):
+        tgt = path_of(n.get('l') if n.get('k') == 'bin' else n.get('e'))
+        if tgt:
+            s = frozenset(f for f in s if not (f[0] == 'int' and f[1] == tgt))
+            if tgt in self.locs:
+                s = self.setmin(s, tgt, 0)
+        return (s,)
+
+    def on_call(self, n, s):
+        rp = path_of(n.get('recv')) if n.get('recv') is not None else None
+        if rp in self.locs:
+            m = mname(n)
+            if m in GROW:
+                return (self.setmin(s, rp, self.minsize(s, rp) + 1),)
+            if m in ('pop', 'pop_back'):
+                return (self.setmin(s, rp, max(self.minsize(s, rp) - 1, 0)),)
+            if m in SHRINK:
+                return (self.setmin(s, rp, 0),)
+            if n.get('op') == '[]' or m in ('front', 'back', 'last'):
+                idx = see_through(n['a'][0]) if n.get('a') else None
+                if m in ('front', 'back', 'last'):
+                    self.accesses.append((n.get('ln'), rp, m, self.minsize(s, rp) >= 1))
+                elif isinstance(idx, dict) and idx.get('k') == 'lit':
+                    self.accesses.append((n.get('ln'), rp, '[%s]' % idx.get('v'), self.minsize(s, rp) > idx.get('v')))
+        for a in n.get('a') or []:
+            pa = path_of(a)
+            if pa in self.locs and not callee(n).startswith('std::'):
+                s = self.setmin(s, pa, 0)
+        return (s,)
+
+
+def frontend_rules(fx, res):
+    # ---- F1 possibly empty local containers
+    r = res.rule('nonempty-before-access', 'in the front end (src/api) a local vector that is indexed with a literal or read with front()/back() is known to be non-empty on every path to the '
+                 'access (an unconditional push, a rejecting size test, a loop condition); assert(...) does not count', floor=3)
+    for f in fx.F.values():
+        if not f.get('body') or '/api/' not in f['file']:
+            continue
+        locs = {d['n'] for d in fwalk(f) if d.get('k') == 'decl' and any(m in (d.get('ct') or '') for m in ('vector<', 'vec<'))}
+        if not locs:
+            continue
+        cand = [n for n in fwalk(f) if n.get('k') == 'call' and not n.get('as') and n.get('recv') is not None and path_of(n['recv']) in locs
+                and (mname(n) in ('front', 'back', 'last') or (n.get('op') == '[]' and n.get('a') and isinstance(see_through(n['a'][0]), dict) and see_through(n['a'][0]).get('k') == 'lit'))]
+        if not cand:
+            continue
+        c = NonEmpty(locs)
+        eng = Engine(f, c)
+        eng.run([frozenset()])
+        if eng.broken:
+            raise AnalysisBroken('%s: %s' % (f['name'], eng.broken))
+        by_site = {}
+        for ln, name, how, known in c.accesses:
+            by_site[(ln, name, how)] = by_site.get((ln, name, how), True) and known
+        for (ln, name, how), known in sorted(by_site.items()):
+            if known:
+                res.ok(r, '%s: %s%s' % (fx.loc(f, ln), name, how if how.startswith('[') else '.' + how + '()'))
+            else:
+                res.bad(r, 'possibly-empty:%s:%s' % (f['name'].split('::')[-1], name), fx.loc(f, ln), '%s reads %s%s on a path on which nothing guarantees that the vector is non-empty '
+                        '(it is filled only conditionally / in a loop that may not run, and no rejecting size test precedes): out-of-bounds read on such input'
+                        % (f['name'], name, how if how.startswith('[') else '.' + how + '()'))
+
+    # ---- F2 options that decide what is built at construction time cannot be changed afterwards
+    r = res.rule('construction-options-frozen', 'an option that decides whether a solver component is allocated (pointer member allocated under a configuration accessor in a constructor / initialize) '
+                 'or which solver class is built (factory returning unique_ptr) is listed in SMTConfig::isPreInitializationOption, so set-option refuses to change it later', floor=3)
+
+    def opts_of(fname, seen):
+        out = set()
+        for f in fx.funcs(fname):
+            for n in fwalk(f):
+                if n.get('k') == 'ref' and 'SMTConfig::o_' in n.get('n', ''):
+                    out.add(n['n'].split('::')[-1])
+                if n.get('k') == 'mem' and n.get('n', '').startswith('o_'):
+                    out.add(n['n'])
+                if n.get('k') == 'call' and callee(n).startswith(CFG) and callee(n) not in seen and callee(n) != fname:
+                    seen.add(callee(n))
+                    out |= opts_of(callee(n), seen)
+        return out
+    frozen = opts_of(CFG + 'isPreInitializationOption', set())
+    if len(frozen) < 3:
+        raise AnalysisBroken('SMTConfig::isPreInitializationOption lists %d options: anchor drifted' % len(frozen))
+    so = fx.func(CFG + 'setOption')
+    if not any(is_call(n, 'isPreInitializationOption') for n in fwalk(so)):
+        res.bad(r, 'frozen-set-not-enforced', fx.loc(so), 'SMTConfig::setOption no longer consults isPreInitializationOption')
+
+    def allocs(e):
+        return any(x.get('k') == 'heapnew' or (x.get('k') == 'call' and 'make_unique' in callee(x)) for x in walk(e))
+
+    def accessors(e):
+        return {callee(x) for x in walk(e) if x.get('k') == 'call' and callee(x).startswith(CFG)}
+    deciding = {}     # (what, where) -> set of accessor names
+    for f in fx.F.values():
+        if not f.get('body'):
+            continue
+        short = f['name'].split('::')[-1]
+        cls = (f.get('class') or '').split('::')[-1]
+        if short == cls or short == 'initialize':
+            for ini in f.get('inits', []):
+                for c in walk(ini['e']):
+                    if c.get('k') == 'cond' and allocs(c.get('t')) != allocs(c.get('f')) and accessors(c.get('c')):
+                        deciding.setdefault(('%s::%s' % (cls, ini.get('m')), fx.loc(f, c.get('ln'))), set()).update(accessors(c['c']))
+            for n in walk(f['body']):
+                if n.get('k') == 'if' and not n.get('as') and accessors(n['cond']):
+                    for x in walk(n['then']):
+                        tgt = None
+                        if x.get('k') == 'bin' and x.get('op') == '=' and allocs(x['r']):
+                            tgt = path_of(x['l'])
+                        elif x.get('k') == 'call' and x.get('op') == '=' and allocs(x.get('a') or []):
+                            tgt = path_of(x['recv']) if x.get('recv') is not None else path_of((x.get('a') or [None])[0])
+                        if tgt and tgt.startswith('this.'):
+                            deciding.setdefault(('%s::%s' % (cls, tgt[5:]), fx.loc(f, n.get('ln'))), set()).update(accessors(n['cond']))
+        if 'unique_ptr' in (f.get('ret') or '') and f['name'].startswith('opensmt::'):
+            conds = set()
+            for n in walk(f['body']):
+                if n.get('k') == 'if' and not n.get('as') and accessors(n['cond']) and any(x.get('k') == 'ret' and allocs(x.get('e')) for x in walk(n['then'])):
+                    conds |= accessors(n['cond'])
+            # only factories used while a solver object is being constructed / initialised (a per-request factory re-reads the option each time)
+            def in_setup(g):
+                sh, cl = g['name'].split('::')[-1], (g.get('class') or '').split('::')[-1]
+                return sh == cl or sh == 'initialize'
+            used_at_setup = any(in_setup(g) and any(x.get('k') == 'call' and f['id'] in fx.targets(x) for x in fwalk(g)) for g in fx.F.values() if g.get('body'))
+            if conds and used_at_setup:
+                deciding.setdefault(('factory %s' % f['name'].replace('opensmt::', ''), fx.loc(f)), set()).update(conds)
+    if not deciding:
+        raise AnalysisBroken('no option-dependent construction found (CoreSMTSolver::resolutionProof, MainSolver::createInnerSolver expected)')
+    for (what, where), accs in sorted(deciding.items()):
+        opts = set()
+        for a in accs:
+            opts |= opts_of(a, set())
+        miss = sorted(opts - frozen)
+        if miss:
+            res.bad(r, 'option-not-frozen:%s:%s' % (what, ','.join(miss)), where, '%s is decided at construction time by %s, which reads %s; %s can still be changed by set-option after the '
+                    'solver was built: the later gate sees the new value while the component was never built (null dereference) or the wrong class runs'
+                    % (what, sorted(a.split('::')[-1] + '()' for a in accs), sorted(opts), miss))
+        else:
+            res.ok(r, '%s: %s all frozen' % (what, sorted(opts)))
+
+    # ---- F3 pipe reader: input that ends inside a command is reported
+    r = res.rule('pipe-eof-residue-reported', 'Interpret::interpPipe reports an error when the input ends while a command is still open (parenthesis counter above zero / inside a string or '
+                 'quoted symbol): after the read loop, or on the end-of-input path, the framing state is tested and the error reporter is called', floor=1)
+    ip = fx.func('opensmt::Interpret::interpPipe')
+    counters = {n['e']['n'] for n in walk(ip['body']) if n.get('k') == 'un' and n.get('op') in ('++', '--') and isinstance(n.get('e'), dict) and n['e'].get('k') == 'ref'}
+    reported = False
+    for n in walk(ip['body']):
+        if n.get('k') == 'if' and not n.get('as'):
+            c = n['cond']
+            mentions = {x['n'] for x in walk(c) if x.get('k') == 'ref'}
+            gt0 = any(x.get('k') == 'bin' and x.get('op') in ('>', '!=') and path_of(x['l']) in counters and see_through(x['r']).get('v') == 0 for x in walk(c))
+            errs = any(x.get('k') == 'call' and callee(x).endswith('notify_formatted') and x.get('a') and see_through(x['a'][0]).get('v') is True for x in walk(n['then']))
+            if gt0 and errs and mentions & counters:
+                reported = True
+    if reported:
+        res.ok(r, 'interpPipe reports an open command at end of input')
+    else:
+        res.bad(r, 'pipe-eof-silent', fx.loc(ip), 'Interpret::interpPipe never tests the parenthesis counter for being above zero together with an error report: input that ends inside a command '
+                '(truncated script) is dropped silently with exit status 0, while file mode reports a syntax error')
+
+    # ---- F4 parser text may be absent
+    r = res.rule('echo-null-text', 'a function that writes ASTNode::getValue() to std::cout tests the pointer: composite nodes have no text (the grammar builds them with NULL), and '
+                 'inserting a null char pointer sets the stream\'s badbit, after which all output is lost', floor=1)
+    for f in fx.F.values():
+        if not f.get('body'):
+            continue
+        streams = False
+        for n in fwalk(f):
+            if n.get('k') == 'call' and n.get('op') == '<<' and not n.get('as'):
+                if any(x.get('k') == 'call' and callee(x) == 'opensmt::ASTNode::getValue' for x in walk(n.get('a') or [])):
+                    root = n
+                    while isinstance(root, dict) and root.get('k') == 'call' and root.get('op') == '<<':
+                        root = see_through(root['recv'] if root.get('recv') is not None else root['a'][0])
+                    if isinstance(root, dict) and root.get('k') == 'ref' and root.get('n') in ('std::cout', 'cout'):
+                        streams = True
+        if not streams:
+            continue
+        tested = False
+        for n in walk(f['body']):
+            if n.get('as') or n.get('macro') == 'assert':
+                continue
+            if n.get('k') in ('if', 'cond'):
+                c = n.get('cond') if n.get('k') == 'if' else n.get('c')
+                if any(x.get('k') == 'call' and callee(x) == 'opensmt::ASTNode::getValue' for x in walk(c)):
+                    tested = True
+        if tested:
+            res.ok(r, '%s tests getValue() before streaming it' % f['name'])
+        else:
+            res.bad(r, 'null-text-streamed:%s' % f['name'].split('::')[-1], fx.loc(f), '%s writes ASTNode::getValue() to std::cout without testing it for null: a composite node '
+                    '(e.g. (as x Int) inside get-value) makes std::cout unusable and every later response is lost, with exit status 0' % f['name'])
